@@ -352,12 +352,20 @@ def run_chain(case, res):
                 else:
                     src = SpyFuture("src")
                     out = src
+                    # in every other chain somebody observes the intermediate stages with a done-callback of their
+                    # own, registered before the next stage is attached - one that raises
+                    observed = idx % 2 == 1
+
+                    def observer(_f):
+                        raise UserErrorB("observer")
                     for st in steps:
                         m = mk(st)
                         if m.get("flat"):
                             out = F.f_flat_map(out, m["fn"])
                         else:
                             out = F.f_map(out, m["fn"], error_fn=m.get("error_fn"))
+                        if observed:
+                            out.add_done_callback(observer)
                     if inp == "value":
                         src.set_result(("v", 0))
                     else:
